@@ -1250,16 +1250,19 @@ def run_spec(ctx, r, spec, label, nvals=None):
     compare(ctx, spec, syms, files, out, model, trips, codec, shadows, payload, pypkg)
 
 
-def imports_module_named_proto(spec):
-    """some file of the set refers to a type declared in a file of the package that is called proto.proto"""
+def named_proto_importers(spec):
+    """the trigger of finding types-module-named-proto: pairs (importing file, imported file) where a message of the first
+    has a field (or map value) whose type is declared in ANOTHER target file that is called proto.proto, i.e. the types
+    module of the first prints `from <…>.types import proto`"""
     syms = symbols(spec)
+    out = []
     for full, s in syms.items():
         if s["kind"] == "message":
             for fl in s["spec"]["fields"]:
                 t = syms.get(fl.get("ref"))
-                if t is not None and t["file"] == "proto" and fkey(t) != fkey(s):
-                    return True
-    return False
+                if t is not None and t["file"] == "proto" and fkey(t) != fkey(s) and (fkey(s), fkey(t)) not in out:
+                    out.append((fkey(s), fkey(t)))
+    return out
 
 
 def generate_from(api, opts):
@@ -1274,10 +1277,18 @@ def generate_from(api, opts):
         return None, (genrun.crash_signature(e), str(e)[:300])
 
 
-def classify_import_error(err, shadows, spec=None):
-    if spec is not None and err["type"] == "AttributeError" and "has no attribute" in err["msg"] and \
-            ".types.proto'" in err["msg"] and imports_module_named_proto(spec):
-        return "types-module-named-proto"
+def classify_import_error(err, shadows, spec=None, pypkg=None):
+    """the key of an import failure.  The known key types-module-named-proto is given only to the recorded defect: the input
+    has the trigger (named_proto_importers) AND the failure is the recorded one at the recorded site — the header statement
+    `__protobuf__ = proto.module(` of an IMPORTING file's types module raises AttributeError because the name `proto` is
+    bound to the imported types module `<…>.types.proto` (which has no attribute `module`).  Any other AttributeError, also
+    one about another attribute of that module or raised elsewhere, keeps the unlisted key import-error:AttributeError."""
+    if spec is not None and pypkg is not None and err["type"] == "AttributeError":
+        for (isub, ifile), (tsub, _) in named_proto_importers(spec):
+            site = py_types_package(pypkg, isub).replace(".", "/") + f"/{ifile}.py"
+            msg = f"module '{py_types_package(pypkg, tsub)}.proto' has no attribute 'module'"
+            if err["msg"] == msg and err["module"] == site and (err["text"] or "").strip().startswith("__protobuf__ = proto.module("):
+                return "types-module-named-proto"
     return "import-error:" + err["type"]
 
 
@@ -1292,7 +1303,7 @@ def compare(ctx, spec, syms, files, out, model, trips, codec, shadows, payload, 
     err = out["import_error"]
     if err:
         ctx.count("import", err["type"])
-        ctx.fail(classify_import_error(err, shadows, spec),
+        ctx.fail(classify_import_error(err, shadows, spec, pypkg),
                  f"importing the emitted types package raises {err['type']}: {err['msg']} ({err['module']}:{err['line']}: {err['text']})", payload)
         if pred_import == "ok" or (pred_import in ("NameError", "AttributeError") and pred_import != err["type"]):
             ctx.disagree("T3:c02.import", f"model predicts import {pred_import}, implementation raised {err['type']}: {err['msg']}", payload)
@@ -1390,22 +1401,30 @@ def compare(ctx, spec, syms, files, out, model, trips, codec, shadows, payload, 
         if emo.get("values") != [[v.name, v.number] for v in e.value]:
             ctx.disagree("T3:c02.enum", f"{full}: model {emo} vs run-time value order {[[v.name, v.number] for v in e.value]}", payload)
     # ---- the class can serialise at all: Class.serialize / deserialize / to_json / from_json / pb / ... are the class-level API
+    # (known key class-api-shadowed:optional-field = the recorded defect only: the message HAS a proto3-optional field called n
+    #  and Cls.n evaluates to the string n, proto-plus's presence-test constant; anything else that replaces the class-level
+    #  API gets the unlisted key class-api-shadowed)
     api_lost_known = set()
+    vals = out.get("shadowed_class_api_values") or {}
     for full, lost in sorted((out.get("shadowed_class_api") or {}).items()):
         opt = {fl["name"] for fl in syms[full]["spec"]["fields"] if fl["card"] == "optional"} if full in syms else set()
+        known = {n for n in lost if n in opt and (vals.get(full) or {}).get(n) == n}
         for n in lost:
-            ctx.fail("class-api-shadowed" + (":optional-field" if n in opt else ""),
-                     f"{full}: {full.rsplit('.', 1)[-1]}.{n} is not the proto-plus class-level API any more (it evaluates to a str): "
-                     f"calling it raises TypeError" + (f"; the message has a proto3-optional field called {n}" if n in opt else ""), payload)
-        if lost and set(lost) <= opt:
+            ctx.fail("class-api-shadowed" + (":optional-field" if n in known else ""),
+                     f"{full}: {full.rsplit('.', 1)[-1]}.{n} is not the proto-plus class-level API any more (it evaluates to the str "
+                     f"{(vals.get(full) or {}).get(n)!r}): calling it raises TypeError"
+                     + (f"; the message has a proto3-optional field called {n}" if n in known else ""), payload)
+        if lost and set(lost) == known:
             api_lost_known.add(full)
     # ---- two-way round trips and JSON
     for t, rt_ in zip(trips, out["roundtrips"]):
         ctx.case(distinct_key=["val", t["full"], t["b64"]], nontrivial=bool(t["value"]))
         pl = {**payload, "message": t["full"], "value": t["value"]}
         if "raised" in rt_:
-            # (a class whose class-level API is shadowed by its own optional fields cannot run every stage: same finding)
-            ctx.fail("class-api-shadowed:optional-field" if t["full"] in api_lost_known else "roundtrip:raised:" + rt_["stage"],
+            # (a class whose class-level API is shadowed by its own optional fields cannot run every stage: the same finding, but
+            #  only for the recorded symptom — calling the shadowed name; any other exception of such a class is reported)
+            same = t["full"] in api_lost_known and rt_["raised"] == "TypeError" and rt_["msg"] == "'str' object is not callable"
+            ctx.fail("class-api-shadowed:optional-field" if same else "roundtrip:raised:" + rt_["stage"],
                      f"{t['full']}: {rt_['stage']} raised {rt_['raised']}: {rt_['msg']}", pl)
             continue
         back = codec.decode(t["full"], rt_["bytes_out"])
